@@ -191,7 +191,7 @@ Returns:
 */
 func (ego *atString) serialize() string {
 	val := ego.getVal().(string)
-	return strconv.Quote(val)
+	return quote(val)
 }
 
 /*
@@ -471,4 +471,45 @@ Returns:
 func (ego *atNil) isEqual(another any) bool {
 	_, ok := another.(*atNil)
 	return ok
+}
+
+/*
+Quotes a string according to the JSON standard (RFC 8259).
+Parameters:
+  - str - string to quote.
+
+Returns:
+  - quoted string.
+*/
+func quote(str string) string {
+	var result strings.Builder
+	result.WriteByte('"')
+	for _, char := range str {
+		switch char {
+		case '"':
+			result.WriteString(`\"`)
+		case '\\':
+			result.WriteString(`\\`)
+		case '\b':
+			result.WriteString(`\b`)
+		case '\f':
+			result.WriteString(`\f`)
+		case '\n':
+			result.WriteString(`\n`)
+		case '\r':
+			result.WriteString(`\r`)
+		case '\t':
+			result.WriteString(`\t`)
+		default:
+			if char < 0x20 {
+				result.WriteString(`\u00`)
+				result.WriteByte("0123456789abcdef"[char>>4])
+				result.WriteByte("0123456789abcdef"[char&0xf])
+			} else {
+				result.WriteRune(char)
+			}
+		}
+	}
+	result.WriteByte('"')
+	return result.String()
 }
